@@ -90,6 +90,9 @@ func verifCreateCertificate(rand io.Reader, template, parent *x509.Certificate, 
 		return nil, err
 	}
 	c := *template
+	// DER round trip: the CA flag travels in the basicConstraints extension, which is only encoded
+	// when the template says it is valid; a certificate parsed back without it is not a CA
+	c.IsCA = template.IsCA && template.BasicConstraintsValid
 	c.Issuer = parent.Subject
 	c.PublicKey = pub
 	id := len(verifCerts)
